@@ -211,10 +211,19 @@ class BatchLoader(LoaderBase):
     ) -> DaskArrayList:
         """Construct batch loading tasks."""
         _backend = backend or Backend()
-        return DaskArrayList.concat(
-            loader.construct_loading_tasks(output_shape=output_shape, backend=_backend)
-            for loader in self.loaders
-        )
+        # Tasks are built per tomogram but must be returned in the order of molecules,
+        # which is not necessarily grouped by the image ID (e.g. after sorting).
+        image_ids = self.molecules.features[IMAGE_ID_LABEL].to_numpy()
+        tasks: list[da.Array | None] = [None] * len(image_ids)
+        for loader in self.loaders:
+            image_id = loader.molecules.features[IMAGE_ID_LABEL][0]
+            indices = np.flatnonzero(image_ids == image_id)
+            sub_tasks = loader.construct_loading_tasks(
+                output_shape=output_shape, backend=_backend
+            )
+            for i, task in zip(indices, sub_tasks):
+                tasks[i] = task
+        return DaskArrayList(tasks)  # type: ignore
 
 
 class LoaderAccessor:
